@@ -26,6 +26,8 @@ def fn_first(a: int | None, b: int) -> int: return b if a is None else a
 def fn_three(x: int, y: int, z: int | None) -> int: return x * 100 + y * 10 + (0 if z is None else z)
 
 
+def fn_ident_items(items: ItemList) -> ItemList: return items
+
 from lenskit.training import TrainingOptions as _TO
 class RecordingTrainable(Component, Trainable):
     """records (first draw of the generator it was given, interaction count) for every `train` call"""
